@@ -22,6 +22,7 @@ Provides classes for generating and analyzing complex climate networks.
 
 #  Import NumPy for the array object and fast numerics
 import numpy as np
+from scipy.stats import rankdata
 
 #  Import cnTsonisClimateNetwork for TsonisClimateNetwork class
 from .tsonis import TsonisClimateNetwork
@@ -116,7 +117,9 @@ class SpearmanClimateNetwork(TsonisClimateNetwork):
         :return: the rank time series.
         """
         #  Obtain rank time series
-        rank_time_series = anomaly.argsort(axis=0).argsort(axis=0)
+        #  tied values share their average rank (a double argsort would
+        #  break ties by position and bias Spearman's rho)
+        rank_time_series = rankdata(anomaly, axis=0) - 1
 
         return rank_time_series
 
